@@ -42,7 +42,7 @@ func (o opTimeout) InterceptOperation(ctx context.Context, next graphql.Operatio
 // ordinary end of the stream: every payload once and in order, then (SSE) exactly one complete event / (multipart)
 // the closing boundary, with and without keep-alive pings.
 func deadlineStreams(c *gen.Ctx, meta *gen.Meta) int {
-	n := 0
+	n, slow := 0, 0
 	cf := &gen.CaseFile{Dir: c.OutDir, Prop: "C12", Kind: "cutshort", Requires: []string{"Base.Prelude", "Model.Sse", "Model.Multipart", "Corr.Corr_C12"}, Type: "c12_case",
 		Checks: []gen.Check{{Label: "corr", Fn: "c12_corr"}, {Label: "mon", Fn: "c12_mon"}, {Label: "monmodel", Fn: "c12_monmodel"}}, Shard: 150}
 	var descr []any
@@ -50,100 +50,114 @@ func deadlineStreams(c *gen.Ctx, meta *gen.Meta) int {
 	for _, kind := range []string{"sse", "multipart"} {
 		for _, how := range []string{"an operation timeout set by an extension", "a deadline a middleware put on the request"} {
 			for _, keepAlive := range []time.Duration{0, 4 * time.Millisecond} {
-				n++
-				es := &graphql.ExecutableSchemaMock{
-					SchemaFunc: func() *ast.Schema { return schema },
-					ComplexityFunc: func(ctx context.Context, typeName, fieldName string, childComplexity int, args map[string]any) (int, bool) {
-						return 0, false
-					},
-					ExecFunc: func(ctx context.Context) graphql.ResponseHandler {
-						i := 0
-						return func(ctx context.Context) *graphql.Response {
-							select {
-							case <-ctx.Done():
-								return nil // the subscription ends with its context
-							case <-time.After(6 * time.Millisecond):
+				// the deadline leaves room for several payloads; on a machine so busy that none arrives in time the
+				// scenario is run again with more room (and left out if even a second is not enough)
+				for attempt, deadline := range []time.Duration{40 * time.Millisecond, 200 * time.Millisecond, time.Second} {
+					n++
+					es := &graphql.ExecutableSchemaMock{
+						SchemaFunc: func() *ast.Schema { return schema },
+						ComplexityFunc: func(ctx context.Context, typeName, fieldName string, childComplexity int, args map[string]any) (int, bool) {
+							return 0, false
+						},
+						ExecFunc: func(ctx context.Context) graphql.ResponseHandler {
+							i := 0
+							return func(ctx context.Context) *graphql.Response {
+								select {
+								case <-ctx.Done():
+									return nil // the subscription ends with its context
+								case <-time.After(6 * time.Millisecond):
+								}
+								i++
+								more := true
+								return &graphql.Response{Data: json.RawMessage(fmt.Sprintf(`{"n":%d}`, i)), HasNext: &more}
 							}
-							i++
-							more := true
-							return &graphql.Response{Data: json.RawMessage(fmt.Sprintf(`{"n":%d}`, i)), HasNext: &more}
-						}
-					},
-				}
-				srv := handler.New(es)
-				srv.AddTransport(transport.SSE{KeepAlivePingInterval: keepAlive})
-				srv.AddTransport(transport.MultipartMixed{Boundary: "graphql"})
-				var h http.Handler = srv
-				if how == "an operation timeout set by an extension" {
-					srv.Use(opTimeout{40 * time.Millisecond})
-				} else {
-					h = http.HandlerFunc(func(w http.ResponseWriter, r *http.Request) {
-						ctx, cancel := context.WithTimeout(r.Context(), 40*time.Millisecond)
-						defer cancel()
-						srv.ServeHTTP(w, r.WithContext(ctx))
-					})
-				}
-				ts := httptest.NewServer(h)
-				req, _ := http.NewRequest("POST", ts.URL, bytes.NewReader([]byte(`{"query":"{ a }"}`)))
-				req.Header.Set("Content-Type", "application/json")
-				req.Header.Set("Accept", map[string]string{"sse": "text/event-stream", "multipart": "multipart/mixed"}[kind])
-				resp, err := (&http.Client{Timeout: 5 * time.Second}).Do(req)
-				var body []byte
-				ct := ""
-				if err == nil {
-					body, err = io.ReadAll(resp.Body)
-					ct = resp.Header.Get("Content-Type")
-					resp.Body.Close()
-				}
-				ts.Close()
-				problem := ""
-				payloads := 0
-				for bytes.Contains(body, []byte(fmt.Sprintf(`{"n":%d}`, payloads+1))) {
-					payloads++
-				}
-				switch {
-				case err != nil:
-					problem = "the client could not read the stream: " + err.Error()
-				case payloads == 0:
-					problem = "no payload arrived before the deadline"
-				case kind == "sse":
-					s := string(body)
-					if !strings.HasSuffix(s, "event: complete\n\n") || strings.Count(s, "event: complete") != 1 {
-						problem = "the stream does not end with exactly one complete event"
+						},
 					}
-				default:
-					if _, perr := mimeParts(body, ct); perr != nil {
-						problem = "mime/multipart cannot read the parts: " + perr.Error()
-					} else if bytes.Count(body, []byte("--graphql--")) != 1 || !bytes.HasSuffix(body, []byte("--graphql--\r\n")) {
-						problem = fmt.Sprintf("the closing boundary appears %d times (and must be last)", bytes.Count(body, []byte("--graphql--")))
-					}
-				}
-				if problem == "" && kind == "multipart" {
-					// the stream as a case for the aggregator model: the payloads sent all announced more
-					toks, terr := tokens(body, "graphql")
-					if terr != nil {
-						problem = "the body is not a sequence of boundary lines, part headers, JSON bodies and CRLFs: " + terr.Error()
+					srv := handler.New(es)
+					srv.AddTransport(transport.SSE{KeepAlivePingInterval: keepAlive})
+					srv.AddTransport(transport.MultipartMixed{Boundary: "graphql"})
+					var h http.Handler = srv
+					if how == "an operation timeout set by an extension" {
+						srv.Use(opTimeout{deadline})
 					} else {
-						var sent []string
-						for i := 1; i <= payloads; i++ {
-							sent = append(sent, fmt.Sprintf("{| p_id := %d%%nat; p_hasnext := true |}", i))
+						h = http.HandlerFunc(func(w http.ResponseWriter, r *http.Request) {
+							ctx, cancel := context.WithTimeout(r.Context(), deadline)
+							defer cancel()
+							srv.ServeHTTP(w, r.WithContext(ctx))
+						})
+					}
+					ts := httptest.NewServer(h)
+					req, _ := http.NewRequest("POST", ts.URL, bytes.NewReader([]byte(`{"query":"{ a }"}`)))
+					req.Header.Set("Content-Type", "application/json")
+					req.Header.Set("Accept", map[string]string{"sse": "text/event-stream", "multipart": "multipart/mixed"}[kind])
+					resp, err := (&http.Client{Timeout: 5 * time.Second}).Do(req)
+					var body []byte
+					ct := ""
+					if err == nil {
+						body, err = io.ReadAll(resp.Body)
+						ct = resp.Header.Get("Content-Type")
+						resp.Body.Close()
+					}
+					ts.Close()
+					problem := ""
+					payloads := 0
+					for bytes.Contains(body, []byte(fmt.Sprintf(`{"n":%d}`, payloads+1))) {
+						payloads++
+					}
+					switch {
+					case err != nil:
+						problem = "the client could not read the stream: " + err.Error()
+					case payloads == 0:
+						if attempt < 2 {
+							continue
 						}
-						cf.Add(fmt.Sprintf("KMulti %s %s", gen.List(sent), gen.List(toks)))
-						descr = append(descr, map[string]any{"transport": kind, "ended_by": how, "keep_alive": keepAlive.String(), "body": string(body)})
+						slow++
+					case kind == "sse":
+						s := string(body)
+						if !strings.HasSuffix(s, "event: complete\n\n") || strings.Count(s, "event: complete") != 1 {
+							problem = "the stream does not end with exactly one complete event"
+						}
+					default:
+						if _, perr := mimeParts(body, ct); perr != nil {
+							problem = "mime/multipart cannot read the parts: " + perr.Error()
+						} else if bytes.Count(body, []byte("--graphql--")) != 1 || !bytes.HasSuffix(body, []byte("--graphql--\r\n")) {
+							problem = fmt.Sprintf("the closing boundary appears %d times (and must be last)", bytes.Count(body, []byte("--graphql--")))
+						}
 					}
-				}
-				for i := 1; i <= payloads && problem == ""; i++ {
-					if c := bytes.Count(body, []byte(fmt.Sprintf(`{"n":%d}`, i))); c != 1 {
-						problem = fmt.Sprintf("payload %d appears %d times", i, c)
+					if problem == "" && kind == "multipart" {
+						// the stream as a case for the aggregator model: the payloads sent all announced more
+						toks, terr := tokens(body, "graphql")
+						if terr != nil {
+							problem = "the body is not a sequence of boundary lines, part headers, JSON bodies and CRLFs: " + terr.Error()
+						} else {
+							var sent []string
+							for i := 1; i <= payloads; i++ {
+								sent = append(sent, fmt.Sprintf("{| p_id := %d%%nat; p_hasnext := true |}", i))
+							}
+							cf.Add(fmt.Sprintf("KMulti %s %s", gen.List(sent), gen.List(toks)))
+							descr = append(descr, map[string]any{"transport": kind, "ended_by": how, "keep_alive": keepAlive.String(), "body": string(body)})
+						}
 					}
-				}
-				if problem != "" {
-					meta.Direct = append(meta.Direct, gen.DirectFinding{Signature: "server-ended-stream-not-well-framed:" + kind,
-						What:   fmt.Sprintf("%s, a stream ended by %s while the client is reading (keep-alive %v): %s; received %q", kind, how, keepAlive, problem, body),
-						Replay: map[string]any{"transport": kind, "ended_by": how, "keep_alive": keepAlive.String(), "body": string(body)}})
+					for i := 1; i <= payloads && problem == ""; i++ {
+						if c := bytes.Count(body, []byte(fmt.Sprintf(`{"n":%d}`, i))); c != 1 {
+							problem = fmt.Sprintf("payload %d appears %d times", i, c)
+						}
+					}
+					if payloads == 0 {
+						break
+					}
+					if problem != "" {
+						meta.Direct = append(meta.Direct, gen.DirectFinding{Signature: "server-ended-stream-not-well-framed:" + kind,
+							What:   fmt.Sprintf("%s, a stream ended by %s while the client is reading (keep-alive %v): %s; received %q", kind, how, keepAlive, problem, body),
+							Replay: map[string]any{"transport": kind, "ended_by": how, "keep_alive": keepAlive.String(), "body": string(body)}})
+					}
+					break
 				}
 			}
 		}
+	}
+	if slow > 0 {
+		meta.Notes = append(meta.Notes, fmt.Sprintf("%d scenarios left out: no payload arrived within a second", slow))
 	}
 	meta.Notes = append(meta.Notes, fmt.Sprintf("%d streams ended by the server (operation timeout of an extension / request deadline of a middleware) while the client reads, with and without keep-alive: every payload once, then exactly one complete event / closing boundary", n))
 	return n
